@@ -107,7 +107,7 @@ NA = {}
 
 def main():
     hooks = subprocess.run(["git","-C","/repo","log","--format=%H %s"],capture_output=True,text=True).stdout.splitlines()
-    hook_commits=[l.split()[0] for l in hooks if ' verif hook:' in l]
+    hook_commits=[l.split()[0] for l in hooks if ' verif hook' in l]
     checks=[]
     for p in props:
         i=p["id"]
